@@ -45,6 +45,7 @@ class Ctx:
         self.sym = Symbols(repo)
         self.obligations: list[Obligation] = []
         self.instances: dict[str, tuple[int, int]] = {}
+        self.floor_failures: list[str] = []
         self.notes: list[str] = []
         self.analysed: dict[str, Any] = {}
         self.t0 = time.time()
@@ -81,7 +82,9 @@ class Ctx:
         """Instance-count floor confirmed by hand; below it the rule fails closed."""
         self.instances[rule] = (found, minimum)
         if found < minimum:
-            raise AnalysisError(
+            # deferred: if the run also finds a violation, that is the verdict; if it finds none,
+            # finish() turns this into an ANALYSIS-ERROR (the rule would have passed vacuously)
+            self.floor_failures.append(
                 f"{rule}: matched {found} instance(s) {what}, fewer than the {minimum} confirmed by hand "
                 "- the rule would pass vacuously"
             )
@@ -117,6 +120,8 @@ def finish(ctx: Ctx, explanation: str, assumptions: list[str], extra: dict[str, 
         else:
             violations.append(o)
 
+    if ctx.floor_failures and not violations:
+        raise AnalysisError("; ".join(ctx.floor_failures))
     EVIDENCE_DIR.mkdir(exist_ok=True)
     vdir = EVIDENCE_DIR / "violations"
     seen_v: set[str] = set()
